@@ -244,7 +244,7 @@ def wfPath (strips : Bool) (p : Bytes) (deleted : Bool) : Bool :=
   | [] => false
   | c :: _ =>
     !isUWs c && !p.contains 10
-      && (!strips || deleted || match p.getLast? with | some l => !isUWs l | none => false)
+      && (!strips || deleted || match p.reverse with | l :: _ => !isUWs l | [] => false)
 
 def wfMapping (strips : Bool) (keys : List Bytes) (m : Mapping) : Bool :=
   (m.kv.map (·.key) == keys) && m.kv.all wfKV
